@@ -174,9 +174,12 @@ static void new_after(int clock, int64_t delta, int qi, int form) {
 	else dispatch_after_f(when, T.q[qi], a, after_fn);
 }
 
+static int far_pct = 15;   // share of timers that are hours away (a populated heap needs far parents over far children for some removals to matter)
 static int64_t gen_delta(int *far) {
 	*far = 0;
 	uint32_t r = g_n(100);
+	if (r >= 100u - (uint32_t)far_pct) { *far = 1; return (int64_t)((3600ull + g_n(200000)) * NSEC); }
+	r = g_n(85);
 	if (r < 10) return -(int64_t)(g_n(1000000) + 1);                 // past
 	if (r < 20) return 0;                                            // now
 	if (r < 70) return (int64_t)(10000 + g_n(3000000));              // near: 10 us .. 3 ms
@@ -191,7 +194,7 @@ static uint64_t gen_interval(void) {
 	return 500000 + g_n(5000000);
 }
 
-enum { TO_PAUSE, TO_NEW, TO_AFTER, TO_RECONF_OTHER, TO_RECONF_HANDLER, TO_RECONF_SUSPENDED, TO_SUSPEND_RESUME, TO_CANCEL, TO_N };
+enum { TO_PAUSE, TO_NEW, TO_AFTER, TO_RECONF_OTHER, TO_RECONF_HANDLER, TO_RECONF_SUSPENDED, TO_SUSPEND_RESUME, TO_CANCEL, TO_CANCEL_MANY, TO_N };
 typedef struct top { int idx, kind, tm, clock, qi, form, far; int64_t delta; uint64_t interval, leeway, pause; } top;
 static top tops[4][12]; static int ntops[4];
 
@@ -222,6 +225,19 @@ static void *timer_client(void *arg) {
 			if (t && !t->cancelled) { dispatch_suspend(t->ds); t->suspended++; sim_sleep_ns(op->pause); t->suspended--; dispatch_resume(t->ds); }
 			break;
 		case TO_CANCEL: if (t && !t->cancelled) { t->cancelled = 1; h_log("cancel timer %d", t->id); dispatch_source_cancel(t->ds); } break;
+		case TO_CANCEL_MANY: {
+			// arbitrary removals from a populated heap, in an order unrelated to the deadlines
+			uint64_t x = (uint64_t)op->delta * 0x9e3779b97f4a7c15ull + (uint64_t)op->tm;
+			for (int k = 0, n = T.ntm; k < n; k++) {
+				x = x * 6364136223846793005ull + 1442695040888963407ull;
+				tm_rec *v = &T.tm[(x >> 33) % (uint64_t)n];
+				if (!v->ready || v->cancelled || !v->nep) continue;
+				// mostly far timers go (they sit deep in the heap, under other far ones); a quarter of the near ones too
+				if (v->ep[v->nep - 1].far ? ((x >> 20) & 3) == 0 : ((x >> 20) & 3) != 0) continue;
+				v->cancelled = 1; h_log("cancel timer %d (churn)", v->id); dispatch_source_cancel(v->ds);
+				if (((x >> 24) & 3) == 0) sim_point();
+			}
+			break; }
 		}
 		sim_point();
 	}
@@ -265,6 +281,7 @@ static void c11_run(void) {
 	memset(&T, 0, sizeof T);
 	bool big = RC.cfg & CFG_THOROUGH;
 	int npop = g_chance(1, 4) ? g_range(12, big ? 40 : 30) : g_range(1, 8);
+	far_pct = (npop >= 12 && g_chance(1, 2)) ? 50 : 15;
 	T.nth = g_range(1, 3);
 	T.q[0] = dispatch_get_global_queue(0, 0);
 	T.q[1] = dispatch_queue_create("tm-serial", NULL);
@@ -290,16 +307,18 @@ static void c11_run(void) {
 			op->pause = (uint64_t)g_range(5, 600) * USEC;
 		}
 	}
+	// a populated heap gets a burst of removals from the first client in half of those runs
+	if (npop >= 12 && g_chance(1, 2)) { top *op = &tops[0][(int)g_n((uint32_t)ntops[0])]; op->kind = TO_CANCEL_MANY; }
 	for (int i = 0; i < npop; i++) if (op_on(i))
 		h_sample("#%d timer clock=%s start=%+ld interval=%lu leeway=%lu q%d%s\n", i, clk_names[pop[i].clock], (long)pop[i].delta, (unsigned long)pop[i].interval, (unsigned long)pop[i].leeway, pop[i].qi, pop[i].strict ? " strict" : "");
-	static const char *const tn[TO_N] = { "pause", "new-timer", "after", "set_timer(other thread)", "set_timer(from handler)", "suspend+set_timer+resume", "suspend+resume", "cancel" };
+	static const char *const tn[TO_N] = { "pause", "new-timer", "after", "set_timer(other thread)", "set_timer(from handler)", "suspend+set_timer+resume", "suspend+resume", "cancel", "cancel-many" };
 	for (int th = 0; th < T.nth; th++) {
 		h_sample("client %d:", th);
 		for (int i = 0; i < ntops[th]; i++) if (op_on(tops[th][i].idx)) {
 			top *op = &tops[th][i];
 			h_sample(" #%d %s", op->idx, tn[op->kind]);
 			if (op->kind == TO_PAUSE) h_sample("(%luus)", (unsigned long)(op->pause / 1000));
-			else if (op->kind != TO_CANCEL && op->kind != TO_SUSPEND_RESUME) h_sample("(%s,%+ld,%lu)", clk_names[op->clock], (long)op->delta, (unsigned long)op->interval);
+			else if (op->kind != TO_CANCEL && op->kind != TO_CANCEL_MANY && op->kind != TO_SUSPEND_RESUME) h_sample("(%s,%+ld,%lu)", clk_names[op->clock], (long)op->delta, (unsigned long)op->interval);
 		}
 		h_sample("\n");
 	}
